@@ -277,4 +277,17 @@ def forwardedTLS (t : TLSState) : Outcome (List Char) :=
   (if t.cipher ≠ 0 then (uint16base16 t.cipher).map ("; tlscipher=".toList ++ ·) else .ok []).bind fun c =>
   .ok (v ++ c)
 
+/-! ## `uuid.NewUUID` (`ToString(generator.Next())`, generator = `fastuuid`) -/
+
+/-- `binary.LittleEndian.PutUint64` -/
+def le64 (x : Nat) : List UInt8 :=
+  [UInt8.ofNat (x % 256), UInt8.ofNat (x / 256 % 256), UInt8.ofNat (x / 65536 % 256), UInt8.ofNat (x / 16777216 % 256),
+   UInt8.ofNat (x / 4294967296 % 256), UInt8.ofNat (x / 1099511627776 % 256), UInt8.ofNat (x / 281474976710656 % 256),
+   UInt8.ofNat (x / 72057594037927936 % 256)]
+
+/-- The id for counter value `x` of a generator with the 24-byte `seed`: `Next()` copies the seed and overwrites
+its first eight bytes with the counter (`atomic.AddUint64`: every call sees another value, modulo 2^64). -/
+def newUUID (seed : List UInt8) (x : Nat) : Outcome (List Char) :=
+  Fabio.Model.C20.uuidToString (le64 (x % 18446744073709551616) ++ seed.drop 8)
+
 end Fabio.Model.C20Serve
